@@ -24,9 +24,9 @@ def norm_structs(draw, dirty=False, platform_hosts=False, userinfo=True, lookali
     s["scheme"] = draw(st.sampled_from(["http", "https", "HTTP", "Https"])) if s["scheme_form"] == "explicit" else None
     s["user"] = s["password"] = None
     if userinfo and draw(st.integers(0, 4)) == 0:
-        s["user"] = draw(st.sampled_from(["user", "User", "u%40x", "a.b"]))
-        if draw(st.booleans()):
-            s["password"] = draw(st.sampled_from(["pw", "Pw1", "p%3Aq", ""]))
+        s["user"] = draw(st.sampled_from(["user", "User", "u%40x", "a.b", ""]))
+        if draw(st.booleans()) or s["user"] == "":
+            s["password"] = draw(st.sampled_from(["pw", "Pw1", "p%3Aq", ""] if s["user"] else ["pw", "Pw1", "p%3Aq"]))
     # host
     pre = []
     for _ in range(draw(st.integers(0, 2))):
